@@ -23,9 +23,8 @@ Definition wf_grammar (g : grammar) : bool :=
                     forallb (fun s => (0 <=? s) && (s <? nsyms g)) (r_rhs r)) (g_rules g).
 
 (* the part of the certificate LalrCert.ref_cert that is still evaluated per grammar once the automaton clauses
-   (aut_cert) and the nullable clause are replaced by theorems (LalrRef_proofs.v) *)
+   (aut_cert) and the nullable / FIRST clauses are replaced by theorems (LalrRef_proofs.v) *)
 Definition ref_cert_light (g : grammar) (fuel : nat) : bool :=
   let a := fst (build_automaton g fuel) in
   wf_grammar g && ref_done g fuel &&
-  first_closed g (nullable_set g) (first_sets g) &&
   la_stable g a (nullable_set g) (first_sets g) (lalr_la g a fuel).
